@@ -106,7 +106,7 @@ def o_middleware(inp):
     fields.append(Field("title", "{T}", 99))
     entry = Entry("article", "k", fields, start_line=3, raw="@article{k,...}")
     lib = Library([entry])
-    out = libgen.maybe_preuse(SplitNameParts(allow_inplace_modification=inp["inplace"]), inp["fields"], same=lib).transform(lib)
+    out = libgen.maybe_preuse(libgen.construct(SplitNameParts, {"allow_inplace_modification": inp["inplace"]}, inp["fields"]), inp["fields"], same=lib).transform(lib)
     name_fields = ("author", "editor", "translator")
     invalid_in = None  # position of the first name field holding an invalid name
     for pos, (k, v) in enumerate(inp["fields"]):
@@ -159,7 +159,7 @@ def o_middleware(inp):
             expected_again.append(None)
     fields2 = [Field(k, list(v), i) for i, (k, v) in enumerate(inp["fields"])]
     lib2 = Library([Entry("article", "k2", fields2, start_line=9, raw="@article{k2,...}")])
-    out2 = SplitNameParts(allow_inplace_modification=True).transform(lib2)
+    out2 = libgen.construct(SplitNameParts, {"allow_inplace_modification": True}, inp["fields"]).transform(lib2)
     b2 = out2.blocks[0]
     if isinstance(b2, Entry):
         for f, exp_parts in zip(b2.fields, expected_again):
